@@ -165,7 +165,10 @@ def bounded(ctx):
                         t = ba.clean(rng, rng.randint(4, 9), e)
                         text = ba.build_module(e, ovs[i], t, ovs[i + 1], rng)
                     r = rng.randrange(len(text))
-                    rec = CircularRecord(Seq(ba.rotate(text, r)), id="mod%d" % i, name="mod%d" % i,
+                    # (identifiers as laboratories write them: long, with hyphens, dots and blanks-free punctuation -- the comment
+                    # must still name each of them, whatever the line lengths)
+                    mid = "mod%d" % i if pid != "A" * 16 else "pLAB-%04d_mRuby2-yeast-codon-optimised-clone.%d" % (245 + 37 * i, i + 1)
+                    rec = CircularRecord(Seq(ba.rotate(text, r)), id=mid, name="mod%d" % i,
                                          annotations={"topology": "circular", "molecule_type": "DNA"})
                     if (i + chain_len) % 2 == 0:
                         # plasmids that were themselves assembled, or exported by an editor, carry provenance features of
@@ -185,7 +188,7 @@ def bounded(ctx):
                 vtext, vfrag = ba.build_vector(e, ovs[chain_len], ovs[0], rng)
                 if vtext is None:
                     continue
-                vec = Vec(CircularRecord(Seq(ba.rotate(vtext, rng.randrange(len(vtext)))), id="vec", name="vec",
+                vec = Vec(CircularRecord(Seq(ba.rotate(vtext, rng.randrange(len(vtext)))), id="vec" if pid != "A" * 16 else "pDEST-backbone-low-copy-KanR-2020-03-rev.B_destination-vector-for-level-1", name="vec",
                                          annotations={"topology": "circular", "molecule_type": "DNA"}))
                 with_stray = rng.random() < 0.4 and chain_len == 1
                 supplied = mods + ([stray] if with_stray else [])
